@@ -105,7 +105,7 @@ def one_run(seed, n_queue, n_direct_seqs):
         await io.shutdown()
         return True
 
-    res, loop = run_virtual(main, max_steps=200000)
+    res, loop = run_virtual(main, max_steps=400000 if n_queue > 1000 else 200000)
     return res, writes, len(calls), queued, direct
 
 
@@ -220,6 +220,8 @@ def run(tier, seed, drv):
         nq, nd = rng.randrange(0, 7), rng.randrange(0, 4)
         if i % 25 == 7:
             nq = rng.choice((70, 130, 300))   # a backlog: many messages queued while the socket is slow
+        if i == 3:
+            nq = 2500                         # ... and a very long one (whatever holds the backlog is not a small fixed-size buffer)
         r, writes, calls, queued, direct = one_run(sd, nq, nd)
         case = {"seed": sd, "n_queue": nq, "n_direct": nd}
         res.case(str(case), nontrivial=nq + nd > 1, sample={"case": case, "writes": [[p.decode("latin1") for p in w] for w in writes][:6], "factory_calls": calls} if len(res.samples) < 2 and nq and nd else None)
